@@ -135,10 +135,10 @@ def render_plain(spec: dict) -> list:
             out.append(render_unit(u))
     for d in spec.get("ddims", ()):
         out.append(render_ddim(d))
-    for a in spec.get("aliases", ()):
-        out.append("@alias " + " = ".join([a["unit"], *a["aliases"]]))
     for g in spec.get("groups", ()):
         out.extend(render_group(g, spec.get("units", ())))
+    for a in spec.get("aliases", ()):
+        out.append("@alias " + " = ".join([a["unit"], *a["aliases"]]))
     for s in spec.get("systems", ()):
         out.extend(render_system(s))
     return out
@@ -270,3 +270,152 @@ class RefTable:
             pn, un = self.resolve(k)
             out = mono_mul(out, {pn + un: 1}, e)
         return out
+
+
+# --------------------------------------------------------------------------- general generator
+BASE_NAMES = ["ua", "ub", "uc", "ud"]
+
+
+def gen_general(rng, opts=None) -> dict:
+    """A general small world: base and derived units, prefixes, derived dimensions, an optional
+    offset unit, groups with a ``using`` DAG, systems with both rule forms, simple contexts
+    (rules with parameters, redefinitions) and a @defaults block. Names are chosen so that no
+    spelling collides by accident (prefix symbols are upper-case, unit names lower-case and
+    never end in 's')."""
+    opts = opts or {}
+    nd = rng.randint(2, 4)
+    dims = [f"[d{i}]" for i in range(nd)]
+    units = [{"name": BASE_NAMES[i], "dim": dims[i]} for i in range(nd)]
+    base = [u["name"] for u in units]
+    if rng.random() < 0.5:
+        units[0]["symbol"] = "A"
+    prefixes = [
+        {"name": "kilo", "symbol": "K", "aliases": [], "factor": "1e3"},
+        {"name": "milli", "symbol": "M", "aliases": [], "factor": "1e-3"},
+    ]
+    if rng.random() < 0.5:
+        prefixes.append({"name": "hecto", "symbol": "H", "aliases": ["hect"] if rng.random() < 0.5 else [], "factor": "1e2"})
+    nder = rng.randint(3, 8)
+    derived = []
+    for i in range(nder):
+        pool = base + [d["name"] for d in derived]
+        ref = {}
+        for _ in range(rng.randint(1, 2)):
+            ref = mono_mul(ref, {rng.choice(pool): rng.choice([1, 1, 1, -1, 2])})
+        if not ref:
+            ref = {rng.choice(base): 1}
+        u = {"name": f"v{i}", "factor": rng.choice(DEC_FACTORS), "ref": ref}
+        if rng.random() < 0.4:
+            u["symbol"] = f"V{i}"
+        if rng.random() < 0.3:
+            u["aliases"] = [f"v{i}alt"] + ([f"v{i}alt2"] if rng.random() < 0.3 else [])
+        derived.append(u)
+    units.extend(derived)
+    if opts.get("offset", True) and rng.random() < 0.4:
+        units.append({"name": "oa", "factor": rng.choice(["1.5", "2", "0.5"]), "ref": {base[0]: 1},
+                      "offset": rng.choice(["10", "32", "2.5"])})
+    spec = {"dims": dims, "prefixes": prefixes, "units": units, "ddims": []}
+    for i in range(rng.randint(0, 2)):
+        ref = {}
+        while not ref:
+            ref = mono_mul({rng.choice(dims): 1}, {rng.choice(dims): rng.choice([-1, 1, -2])})
+        spec["ddims"].append({"name": f"[s{i}]", "ref": ref})
+    if rng.random() < 0.4 and derived:
+        d = rng.choice(derived)
+        spec["aliases"] = [{"unit": d["name"], "aliases": [d["name"] + "aka"]}]
+    table = RefTable(spec)
+    # groups
+    groups = []
+    if opts.get("groups", True):
+        ng = rng.randint(0, 3)
+        for gi in range(ng):
+            using = [g["name"] for g in groups if rng.random() < 0.5]
+            groups.append({"name": f"g{gi}", "using": using})
+        for d in derived:
+            if groups and rng.random() < 0.5:
+                d["group"] = rng.choice(groups)["name"]
+    spec["groups"] = groups
+    # systems
+    systems = []
+    if opts.get("systems", True) and derived:
+        for si in range(rng.randint(0, 2)):
+            rules, taken = [], set()
+            cands = list(derived)
+            rng.shuffle(cands)
+            for d in cands:
+                if len(rules) >= 2:
+                    break
+                _, vdim = table.root_of_unit(d["name"])
+                ones = [dim for dim, e in vdim.items() if abs(e) == 1]
+                if len(vdim) == 1 and ones and rng.random() < 0.5:
+                    old = table.base_unit_of_dim()[ones[0]]
+                    if old not in taken and vdim[ones[0]] == 1:
+                        rules.append([d["name"], None])
+                        taken.add(old)
+                elif ones:
+                    old = table.base_unit_of_dim()[rng.choice(ones)]
+                    if old not in taken:
+                        rules.append([d["name"], old])
+                        taken.add(old)
+            using = [g["name"] for g in groups if rng.random() < 0.6]
+            systems.append({"name": f"sy{si}", "using": using, "rules": rules})
+    spec["systems"] = systems
+    # contexts
+    contexts = []
+    if opts.get("contexts", True):
+        bod = table.base_unit_of_dim()
+        for ci in range(rng.randint(0, 2)):
+            ctx = {"name": f"c{ci}", "aliases": [f"c{ci}x"] if rng.random() < 0.5 else [], "defaults": {},
+                   "rules": [], "redefs": []}
+            for _ in range(rng.randint(0, 3)):
+                if nd < 2:
+                    break
+                a, b = rng.sample(dims, 2)
+                if any(r["src"] == {a: 1} and r["dst"] == {b: 1} for r in ctx["rules"]):
+                    continue
+                par = ["n1", rng.choice([1, -1])] if rng.random() < 0.5 else None
+                ctx["rules"].append({"src": {a: 1}, "dst": {b: 1}, "bidir": False, "kind": "lin",
+                                     "K": rng.choice(DEC_FACTORS), "par": par,
+                                     "M": {bod[b]: 1, bod[a]: -1}})
+                if par:
+                    ctx["defaults"].setdefault("n1", rng.choice(["2", "3", "0.5"]))
+            if derived and rng.random() < 0.6:
+                v = rng.choice(derived)
+                ctx["redefs"].append({"name": v["name"], "factor": rng.choice(DEC_FACTORS), "ref": dict(v["ref"])})
+            contexts.append(ctx)
+    spec["contexts"] = contexts
+    # pint's @defaults block needs both keys
+    if groups and systems and rng.random() < 0.5:
+        spec["defaults"] = {"group": rng.choice(groups)["name"], "system": rng.choice(systems)["name"]}
+    return spec
+
+
+def rule_equation(r: dict) -> str:
+    m = mono_str(r["M"], one="1")
+    s = f"value * {r['K']} * {m}" if r["kind"] == "lin" else f"{r['K']} * {m} / value"
+    if r.get("par"):
+        p, e = r["par"]
+        s += f" * {p}" if e == 1 else (f" / {p}" if e == -1 else f" * {p} ** {e}")
+    return s
+
+
+def render_simple_context(ctx: dict) -> list:
+    head = "@context"
+    if ctx["defaults"]:
+        head += "(" + ", ".join(f"{k}={v}" for k, v in ctx["defaults"].items()) + ")"
+    head += " " + " = ".join([ctx["name"], *ctx["aliases"]])
+    out = [head]
+    for r in ctx["rules"]:
+        arrow = "<->" if r["bidir"] else "->"
+        out.append(f"    {mono_str(r['src'])} {arrow} {mono_str(r['dst'])}: {rule_equation(r)}")
+    for rd in ctx["redefs"]:
+        out.append(f"    {rd['name']} = {rd['factor']} * {mono_str(rd['ref'], one='1')}")
+    out.append("@end")
+    return out
+
+
+def render_all(spec: dict) -> list:
+    lines = render_plain(spec)
+    for ctx in spec.get("contexts", ()):
+        lines.extend(render_simple_context(ctx))
+    return lines
